@@ -50,6 +50,17 @@ def check (m : Mon) (pre : State) (op : Op) (res : String) (post : State) : Mon 
           -- exactly once: a pool that is not due is not touched by the EndBlocker
           fails := fails ++ [s!"clause=endblock-touched pool={id}"]
     if !(C05.sameMap pre.farmers post.farmers) then fails := fails ++ ["clause=endblock-farmers"]
+  | .cpPass pid | .cpReject pid | .cpFailDeposit pid =>
+    -- gov's EndBlocker with the farm hooks never aborts; a due proposal is settled (its escrow info
+    -- is gone), one that is not due is left alone; farmers and the other pools are never touched
+    if res == "panic" then fails := fails ++ ["clause=gov-endblock-abort"]
+    if res == "ok" && (AMap.get? post.cp.escrow pid).isSome then fails := fails ++ [s!"clause=escrow-not-settled id={pid}"]
+    if res != "ok" && !(C05.sameObserved pre post && C05.sameCp pre post) then fails := fails ++ [s!"clause=not-due-touched id={pid}"]
+    if !(C05.sameMap pre.farmers post.farmers) then fails := fails ++ ["clause=gov-endblock-farmers"]
+    for (id, p) in pre.pools do
+      match getPool post id with
+      | none => fails := fails ++ [s!"clause=pool-vanished pool={id}"]
+      | some q => if !(C05.sameMap [(id, p)] [(id, q)]) then fails := fails ++ [s!"clause=gov-endblock-touched pool={id}"]
   | _ => pure ()
   return (m, fails)
 
